@@ -72,3 +72,11 @@ add("C09", "direct-from-base reference oracle on every zoom level + layout/recog
     "paths, chunk sizes and worker counts; -r spellings are expanded by an independent implementation. A probe checks "
     "get_multiplier_sequence consistency.",
     "DESIGN.md section 4 C09")
+add("C05", "fate-tagged record generator + linear-scan binning reference over API, text loaders and tabix loader",
+    "Records are generated with their intended fate (valid / unlisted chromosome / out of range) and positions on "
+    "every bin edge +-1, 0, length-1, length, length+1, -1, both orientations, zero/one-based, reflect/drop/none, "
+    "sided extra fields, shuffled and re-chunked; they are driven through sanitize_records+aggregate_records, "
+    "sanitize_pixels, `cooler cload pairs`, `cooler load -f bg2|coo` (plain/.gz) and TabixAggregator (bgzip+index "
+    "built with pysam); pixel counts, totals, order independence, sided-field swaps and rejections are compared "
+    "with a reference fold that uses a linear bin scan. One known finding (pos == length accepted) is listed.",
+    "DESIGN.md section 4 C05")
